@@ -195,6 +195,37 @@ def truth(v: V) -> Optional[bool]:
 
 
 _LOCAL_FUNCS: Dict[int, ast.AST] = {}
+_FRAME_COUNTER = [0]
+_FREE_CACHE: Dict[int, Tuple[str, ...]] = {}
+
+
+def new_frame_id() -> "K":
+    _FRAME_COUNTER[0] += 1
+    return K(_FRAME_COUNTER[0])
+
+
+def _free_names(node: ast.AST) -> Tuple[str, ...]:
+    """names a def / lambda reads that are neither its parameters nor assigned in its own body"""
+    k = id(node)
+    if k not in _FREE_CACHE:
+        a = node.args  # type: ignore[attr-defined]
+        bound = {x.arg for x in a.posonlyargs + a.args + a.kwonlyargs}
+        if a.vararg is not None:
+            bound.add(a.vararg.arg)
+        if a.kwarg is not None:
+            bound.add(a.kwarg.arg)
+        body = node.body if isinstance(node.body, list) else [node.body]  # type: ignore[attr-defined]
+        loads: List[str] = []
+        for b in body:
+            for x in ast.walk(b):
+                if isinstance(x, ast.Name):
+                    if isinstance(x.ctx, ast.Load):
+                        if x.id not in loads:
+                            loads.append(x.id)
+                    else:
+                        bound.add(x.id)
+        _FREE_CACHE[k] = tuple(n for n in loads if n not in bound)
+    return _FREE_CACHE[k]
 
 
 class Interp:
@@ -577,16 +608,41 @@ class Interp:
     # ---- functions defined inside the interpreted function (def / lambda) ----------------------------
     def _local_function(self, node: ast.AST, st: State) -> V:
         _LOCAL_FUNCS[id(node)] = node  # process-wide: a lambda stored in a module constant is evaluated by another interpreter
-        return R("localfunc", node=K(id(node)))
+        # a closure: the bindings of its free variables at definition time travel with it; they are used when the function is
+        # called from another activation than the one that defined it (returned from a decorator, stored in a table)
+        cap = tuple((n, st.env[n]) for n in _free_names(node) if n in st.env)
+        return R("localfunc", node=K(id(node)), frame=st.env.get("__frame__", K(0)), cap=K(cap))
 
     def _call_local(self, f: R, args: List[V], kwargs: Dict[str, V], st: State) -> V:
+        memo = f.fields.get("memo")
+        if isinstance(memo, Ref):
+            # functools.lru_cache on a local function: keyed by the arguments (hash/== of the platform: records of kind
+            # 'code' compare without co_filename), filled only by calls that returned
+            table = st.dict_of(memo)
+            mk = K((K(tuple(st.freeze(a) for a in args)), K(tuple(sorted((n, repr(st.freeze(v))) for n, v in kwargs.items())))))
+            if mk in table:
+                st.effects.append(("lru-hit", "local"))
+                return table[mk]
+            before = st.pending
+            v_m = self._call_local(f.replace(memo=K(None)), args, kwargs, st)
+            if st.pending is None and before is None and not isinstance(v_m, U):
+                table[mk] = v_m
+            return v_m
         node = _LOCAL_FUNCS.get(f.fields["node"].v)
         if node is None:
             return U("unknown local function")
         a = node.args
         params = [x.arg for x in a.posonlyargs + a.args]
         sub = State()
-        sub.env = dict(st.env)  # the enclosing scope as it is at call time
+        if "frame" in f.fields and f.fields["frame"] != st.env.get("__frame__", K(0)) and isinstance(f.fields.get("cap"), K):
+            # called outside its defining activation: globals of the process + the captured free variables
+            sub.env = {k: v for k, v in st.env.items() if k.startswith("__global__:")}
+            for n_c, v_c in f.fields["cap"].v:
+                sub.env[n_c] = v_c
+        else:
+            sub.env = dict(st.env)  # the enclosing scope as it is at call time
+        _FRAME_COUNTER[0] += 1
+        sub.env["__frame__"] = K(_FRAME_COUNTER[0])
         sub.effects, sub.assume, sub.heap, sub._next = st.effects, st.assume, st.heap, st._next
         for p_, v in zip(params, args):
             sub.env[p_] = v
@@ -605,8 +661,15 @@ class Interp:
             v = self.eval(node.body, sub)
             if sub.pending is not None:
                 st.pending = st.pending or sub.pending
+            for gk, gv in sub.env.items():
+                if gk.startswith("__global__:") and gk not in st.env:
+                    st.env[gk] = gv
             return v
         outs = self.run(node.body, sub)
+        for o_ in outs:
+            for gk, gv in o_.env.items():
+                if gk.startswith("__global__:") and gk not in st.env:
+                    st.env[gk] = gv
         if len(outs) != 1:
             vals = [o.term[1] if o.term and o.term[0] == "return" else K(None) for o in outs]
             return vals[0] if vals and all(v == vals[0] for v in vals) else U("local function forked")
@@ -1212,8 +1275,15 @@ class Interp:
         if isinstance(s, ast.Continue):
             st.term = ("continue",)
             return [st]
-        if isinstance(s, (ast.FunctionDef,)) and not s.decorator_list:
-            st.env[s.name] = self._local_function(s, st)
+        if isinstance(s, (ast.FunctionDef,)) and all(_local_deco_kind(d) is not None for d in s.decorator_list):
+            # functools.wraps(f) copies metadata (__name__, __doc__, __wrapped__) onto the new function: same behaviour;
+            # functools.lru_cache / cache give the closure a table of its own that lives as long as the closure does
+            lf = self._local_function(s, st)
+            if any(_local_deco_kind(d) == "memo" for d in s.decorator_list):
+                if not self.heap:
+                    raise AnalysisError(f"abstract interpretation: memoised local function {s.name} needs the heap model")
+                lf = lf.replace(memo=st.alloc("dict", {}))  # type: ignore[union-attr]
+            st.env[s.name] = lf
             return [st]
         if isinstance(s, ast.Import):
             for al in s.names:
@@ -1353,6 +1423,16 @@ class Interp:
         if self.strict_stmt:
             raise AnalysisError(f"abstract interpretation: unsupported statement {type(s).__name__}: {norm(s)[:80]}")
         return [st]
+
+
+def _local_deco_kind(d: ast.AST) -> Optional[str]:
+    """'meta' for functools.wraps(...), 'memo' for functools.lru_cache / cache (bare or called), None for anything else"""
+    if isinstance(d, ast.Call) and (dotted(d.func) or "") in ("functools.wraps", "wraps"):
+        return "meta"
+    tgt = d.func if isinstance(d, ast.Call) else d
+    if (dotted(tgt) or "") in ("functools.lru_cache", "lru_cache", "functools.cache", "cache"):
+        return "memo"
+    return None
 
 
 def _handler_names(h: ast.ExceptHandler) -> List[str]:
